@@ -652,7 +652,7 @@ func runC19(tier string, seed int64, outdir string, replay string) error {
 		emitJobs(c.class, c.p, c19RunJobs(c.p))
 	}
 	// ---- (a) retry loop, one batch per table (retryIntervals is a package variable)
-	mon := startStallMonitor()
+	mon := c17StartStallMonitor()
 	defer mon.Stop()
 	batches := c19RetryPlans(tier, r)
 	stalledRetry := make([][]bool, len(batches))
